@@ -19,9 +19,11 @@ violation naming the site - on the pinned tree: the unchecked additions on peer-
 container_value_len (fixed by 51c799c) and the nesting underflow of TLVSequenceTLVIter (fixed by 2fc1ebd);
 (b) every loop makes progress: each CFG cycle in the reader contains a call that strictly shortens the remaining input
 (next_enter / next_start / Iterator::next / get(n..));
-(c) reported lengths lie within the input: raw_value / container_value / value / next_start return only checked `get(..)` sub-slices.
+(c) reported lengths lie within the input: raw_value / container_value / value / next_start return only checked `get(..)` sub-slices;
+(d) writer half, structural part only: in TLVWrite::{i16,i32,i64,u16,u32,u64} the cast of `data` to the narrower type is cut by `data <= narrow::MAX`
+and (signed) `data >= narrow::MIN` comparisons on `data` itself, and each method's full-width arm writes the TLVValueType of its own width.
 """
-CLAUSES = ['a: reader panic surface discharged', 'b: loops advance through the input', 'c: returned slices are bounds-checked sub-slices of the input']
+CLAUSES = ['a: reader panic surface discharged', 'b: loops advance through the input', 'c: returned slices are bounds-checked sub-slices of the input', 'd: writer narrows integers only inside the narrow range; value-type table']
 NOT_DECIDED = ['decode(encode(v)) == v and re-encoding stability', 'u64 -> usize truncation of lengths on 32-bit targets (noted, not alarmed)']
 MIN_OBLIGATIONS = {'q': 25, 'd': 25, 'r': 25}
 HERE = os.path.dirname(os.path.abspath(__file__))
@@ -100,3 +102,42 @@ def check(R):
                 R.expect('P2', fn, 'the returned slice is a checked get(..) sub-slice of the input', bool(gets) and not idx, f'{gets}', f'returned slice derives from {sorted(src_calls(s))[:5]}', b.where(bb))
         rv = R.body('tlv::read::TLVSequence::raw_value')
         R.expect('P4', rv.fn, 'raw_value goes through container_value', 'tlv::read::TLVSequence::container_value' in rv.calls_summary, 'ok', 'changed')
+
+    # ---- d --------------------------------------------------------------------
+    with R.clause('d'):
+        # writer side of the round trip: the minimal-width selection narrows a value only inside the narrow type's range, and the
+        # full-width arm tags the bytes with the value type of its own width
+        RANGE = {'i8': (-128, 127), 'i16': (-32768, 32767), 'i32': (-2 ** 31, 2 ** 31 - 1), 'u8': (0, 255), 'u16': (0, 65535), 'u32': (0, 2 ** 32 - 1)}
+        NARROW = {'i16': 'i8', 'i32': 'i16', 'i64': 'i32', 'u16': 'u8', 'u32': 'u16', 'u64': 'u32'}
+        VT = {'i8': 'S8', 'i16': 'S16', 'i32': 'S32', 'i64': 'S64', 'u8': 'U8', 'u16': 'U16', 'u32': 'U32', 'u64': 'U64'}
+        for m, nar in sorted(NARROW.items()):
+            b = R.body('tlv::write::TLVWrite::' + m)
+            lo, hi = RANGE[nar]
+            casts = sorted({i for i, j, st in b.stmts() if st[1].get('op') == 'cast' and len(st[0]) == 1 and b.local_ty(st[0][0]) == nar
+                            and p7.expr_key(b, st[1]['a'][0]) == 'data'})
+            R.floor(f'narrowing cast in TLVWrite::{m}', len(casts), 1)
+            ge, le = set(), set()
+            for (bb, j, op, x, y, dest) in prims.compare_sites(b):
+                kx, ky = p7.expr_key(b, x), p7.expr_key(b, y)
+                if ky == 'data' and kx != 'data':
+                    kx, ky, op = ky, kx, {'Lt': 'Gt', 'Gt': 'Lt', 'Le': 'Ge', 'Ge': 'Le'}.get(op, op)
+                c = p7._eval_key(ky)
+                if kx != 'data' or c is None:
+                    continue
+                te, fe = prims.bool_local_edges(b, dest)
+                if (op == 'Ge' and c >= lo) or (op == 'Gt' and c >= lo - 1):
+                    ge |= te
+                if (op == 'Lt' and c >= lo) or (op == 'Le' and c >= lo - 1):
+                    ge |= fe
+                if (op == 'Le' and c <= hi) or (op == 'Lt' and c <= hi + 1):
+                    le |= te
+                if (op == 'Gt' and c <= hi) or (op == 'Ge' and c <= hi + 1):
+                    le |= fe
+            R.cut('P2', b, f'narrow the value to {nar}', casts, f'data <= {nar}::MAX', le)
+            if lo < 0:
+                R.cut('P2', b, f'narrow the value to {nar}', casts, f'data >= {nar}::MIN', ge)
+        for m, vt in sorted(VT.items()):
+            b = R.body('tlv::write::TLVWrite::' + m)
+            vts = sorted({st[1].get('var') for i, j, st in b.stmts() if st[1].get('op') == 'agg' and st[1].get('adt') == 'tlv::TLVValueType'})
+            R.expect('P5', b.fn, f'the full-width arm of TLVWrite::{m} writes value type {vt}', vts == [vt], f'{vts}', f'writes {vts}', f'{b.file}:{b.line}')
+
